@@ -121,12 +121,14 @@ class Codec:
         header = []
         msg_type = "%s=%s" % (FTag.MsgType, msg_type)
         header.append("%s=%s" % (FTag.BeginString, self.protocol.beginstring))
-        header.append("%s=%i" % (FTag.BodyLength, len(body) + len(msg_type) + 1))
+        # BodyLength / CheckSum are defined on bytes put on the wire (utf-8)
+        body_length = len(body.encode("utf-8")) + len(msg_type.encode("utf-8")) + 1
+        header.append("%s=%i" % (FTag.BodyLength, body_length))
         header.append(msg_type)
 
         fixmsg = self.SOH.join(header) + self.SOH + body
 
-        cksum = sum([ord(i) for i in fixmsg]) % 256
+        cksum = sum(fixmsg.encode("utf-8")) % 256
         fixmsg = fixmsg + "%s=%0.3i" % (FTag.CheckSum, cksum)
 
         # print len(fixmsg)
